@@ -299,7 +299,8 @@ def report(prop: str, tier: str, results: List[Dict[str, Any]], wall: float, ver
             unit = unit_by_name.get(g["unit"])
             entry = getattr(unit, "replay", None)
             if entry:
-                rr = native_call(entry, {"obligation": g["key"], "model": g["model"] or {}, "desc": g["desc"]}, 300)
+                rr = native_call(entry, {"obligation": g["key"], "model": g["model"] or {}, "desc": g["desc"],
+                                         "unit": g["unit"]}, 300)
                 rec["replay"] = rr
                 confirmed = bool(rr.get("confirmed"))
         else:
